@@ -132,3 +132,19 @@ func Ints(v any) []int {
 	}
 	return out
 }
+
+// StrListMap is a JSON object of string lists that TLC renders as [] when empty.
+type StrListMap map[string][]string
+
+func (m *StrListMap) UnmarshalJSON(b []byte) error {
+	*m = StrListMap{}
+	if len(b) > 0 && b[0] == '[' {
+		return nil
+	}
+	tmp := map[string][]string{}
+	if err := json.Unmarshal(b, &tmp); err != nil {
+		return err
+	}
+	*m = tmp
+	return nil
+}
